@@ -231,10 +231,10 @@ def run(ctx):
     for defs, cfg in CORPUS:
         p = c06.mk_prog(defs, cfg)
         for ctl, hit in sc.enumerate_schedules_pairs(lambda d: one_run(ctx, p, decisions=d, items=items, tag="corpus-exhaustive"),
-                                                     ctx.n(60, 600)):
+                                                     ctx.n(40, 600)):
             reproduced = reproduced or hit
         base.flush(ctx, items)
-    for i in range(ctx.n(35, 600)):
+    for i in range(ctx.n(25, 600)):
         p = sc.gen_program(rng, p_dup=0.8, p_limits=0.1, p_ctx=0.5, p_fail=0.05, allow_optout=False, allow_badexec=False)
         for k in range(2):
             _, hit = one_run(ctx, p, rng=random.Random(rng.random()), items=items)
